@@ -2,12 +2,12 @@
 Resolve.Glob — the wildcard matcher used for task names.
 
 Mirrors `(*ast.Task).WildcardMatch` (taskfile/ast/task.go): the task name is split
-at `*`, every `*` becomes the regexp group `(.*)`, the whole is anchored `^…$`, and
-Go's regexp (leftmost-first, greedy) is run on the requested name.  `.` does not
-match `\n`.  With every other character literal (the property's requirement; the
-implementation gets there through `regexp.QuoteMeta`) the regexp semantics is the
-function below: the first group takes the longest newline-free prefix for which the
-rest still matches, and so on.
+at `*`, every `*` becomes the regexp group `(.*)`, the whole is anchored `(?s)^…$`, and
+Go's regexp (leftmost-first, greedy) is run on the requested name.  With the flag `s`
+the dot matches every character, the newline included ("only `*` is special").  With
+every other character literal (the property's requirement; the implementation gets there
+through `regexp.QuoteMeta`) the regexp semantics is the function below: the first group
+takes the longest prefix for which the rest still matches, and so on.
 -/
 namespace TaskModel.Resolve
 
@@ -25,11 +25,6 @@ def isPrefix : Str → Str → Bool
   | [], _ => true
   | _ :: _, [] => false
   | a :: as, b :: bs => a == b && isPrefix as bs
-
-/-- length of the longest prefix without a newline -/
-def nlFree : Str → Nat
-  | [] => 0
-  | c :: cs => if c = '\n' then 0 else nlFree cs + 1
 
 /-- `tryK seg k s n`: try group lengths `n, n-1, …, 0` (greedy: longest first);
 `k` is the matcher for what follows `seg`. -/
@@ -50,7 +45,7 @@ def tryK (seg : Str) (k : Str → Option (List Str)) (s : Str) : Nat → Option 
 /-- match `(.*)seg₁(.*)seg₂…` against the whole of `s` -/
 def matchRest : List Str → Str → Option (List Str)
   | [], s => if s = [] then some [] else none
-  | seg :: more, s => tryK seg (matchRest more) s (nlFree s)
+  | seg :: more, s => tryK seg (matchRest more) s s.length
 
 /-- `matchSegs (seg₀ :: rest) s` — the anchored match of `seg₀(.*)seg₁…` -/
 def matchSegs : List Str → Str → Option (List Str)
